@@ -103,7 +103,7 @@ class KGFnWrapper:
         if self._sym is not None:
             try:
                 current = self.klong._context[self._sym]
-                if isinstance(current, KGFn) and not isinstance(current, KGCall):
+                if isinstance(current, KGFn) and (not isinstance(current, KGCall) or isinstance(current.a, KGLambda)):
                     # Use the current definition
                     if len(args) != current.arity:
                         raise RuntimeError(f"Klong function called with {len(args)} but expected {current.arity}")
